@@ -16,7 +16,8 @@ import numpy as np
 
 from vf import par, tlc
 
-ALL_KINDS = ["Sc", "Lin", "Mul", "Split", "Cat", "Dot"]
+ALL_KINDS = ["Sc", "Lin", "Add", "Mul", "Split", "Cat", "Dot"]
+DYAD_KINDS = {"Sc", "Lin", "Add", "Split"}     # kinds whose adjoint can be carried by DyadCarrier sensitivities
 INVS = ["TotalDerivative", "NoSeedNoSens", "ResetLeavesNothing"]
 PROPS = ["StatesUntouched"]
 SRC = {1: [1.0, 2.0], 2: [3.0, -1.0]}
@@ -59,6 +60,13 @@ def make_module_classes():
         def _sensitivity(self, dy):
             return 2 * dy, -dy
 
+    class VAdd(pym.Module):
+        def _response(self, a, b):
+            return a + b
+
+        def _sensitivity(self, dy):
+            return dy, dy          # the very same object for both inputs
+
     class VMul(pym.Module):
         def _response(self, a, b):
             self.a, self.b = a, b
@@ -95,7 +103,7 @@ def make_module_classes():
         def _sensitivity(self, dy):
             return dy[0] * self.b, dy[0] * self.a
 
-    return dict(Sc=VSc, Lin=VLin, Mul=VMul, Split=VSplit, Cat=VCat, Dot=VDot)
+    return dict(Sc=VSc, Lin=VLin, Add=VAdd, Mul=VMul, Split=VSplit, Cat=VCat, Dot=VDot)
 
 
 _CLASSES = None
@@ -146,6 +154,11 @@ def build(prog, slen, realisation):
 def proj(x):
     if x is None:
         return None
+    if hasattr(x, "todense") and hasattr(x, "n_dyads"):
+        d = np.asarray(x.todense(), dtype=float).ravel()
+        x = d if d.size else None
+        if x is None:
+            return None
     a = np.asarray(x, dtype=float).ravel()
     r = np.round(a)
     if np.any(np.abs(a - r) > 1e-9):
@@ -207,7 +220,11 @@ def replay_program(case, realisation):
     try:
         net.response()
         for o in seeded:
-            sig[o].sensitivity = np.array([1 + ((o + i) % 3) for i in range(1, slen[o - 1] + 1)], dtype=float)
+            w = np.array([1 + ((o + i) % 3) for i in range(1, slen[o - 1] + 1)], dtype=float)
+            if realisation == "dyad":
+                import pymoto as pym
+                w = pym.DyadCarrier([w], [np.array([1.0])])      # sensitivities carried as dyads (as for sparse matrices)
+            sig[o].sensitivity = w
         log.append(("Seed", 0, True, snap()))
         net.sensitivity()
         net.reset()
@@ -231,8 +248,10 @@ def replay_program(case, realisation):
 def _replay_chunk(cases):
     out = []
     for case in cases:
-        for real in ("user", "lib"):
+        for real in ("user", "lib", "dyad"):
             if real == "lib" and not any(m["kind"] in ("Mul", "Cat") for m in case["prog"]):
+                continue
+            if real == "dyad" and not all(m["kind"] in DYAD_KINDS | {"(", ")"} and all(not r["pos"] for r in m["ins"]) for m in case["prog"]):
                 continue
             res = replay_program(case, real)
             key = {"prog": [[m["kind"], [[r["sig"], r["pos"]] for r in m["ins"]]] for m in case["prog"]],
@@ -300,4 +319,7 @@ def run(chk, replay=None):
             chk.tlc_runs.append({"module": "Network", "label": "emit", "generated": r.generated, "distinct": r.distinct,
                                  "wall_s": round(r.wall, 2)})
             cases = [v[0] for tag, v in r.printed if tag == "PROG"]
+            if not thorough and len(cases) > 3000:
+                import random
+                cases = random.Random(chk.seed + len(cases)).sample(cases, 3000)     # quick tier: seeded sample of each exhaustive family
             check_cases(chk, cases)
